@@ -289,6 +289,10 @@ def fragments(tier):
     # a function name that carries its first argument ("#if:x"), and a name reached through parser_function_aliases
     cpfs.append({"name": "#if:x", "args": ["yes", "no"]})
     cpfs.append({"name": "#tag:span", "args": ["content"]})
+    # ... where the first argument that rides on the name is case-, underscore- or blank-sensitive
+    for nm, rest in (("#ifeq:A", ["a", "same", "differ"]), ("ucfirst:aBC", []), ("uc:a_b", []), ("padleft:Ab", ["4", "X"]), ("lc:A  B_c", []),
+                     ("#switch:Ab", ["ab=lower", "Ab=exact"]), ("UC:mixed_Case x", []), ("#IFEQ:x_y", ["x y", "same", "differ"])):
+        cpfs.append({"name": nm, "args": rest})
     cpfs.append({"name": "#si", "args": ["x", "yes", "no"]})
     return frs, ets, cpfs
 
